@@ -2,6 +2,7 @@ package ssaexec
 
 import (
 	"fmt"
+	"os"
 	"go/types"
 	"sort"
 	"strings"
@@ -64,6 +65,7 @@ type Options struct {
 	Workers   int
 	Tier      int
 	Merge     map[string]bool
+	IfConv    bool
 }
 
 type PathResult struct {
@@ -77,6 +79,7 @@ type PathResult struct {
 // scope is one level of decision bookkeeping: the whole path at top level,
 // or the local exploration of a merged (pure) callee.
 type scope struct {
+	lazy   bool // merged pure call: fork without feasibility queries (except in loops)
 	prefix []int
 	pos    int
 	trace  []int
@@ -85,10 +88,25 @@ type scope struct {
 
 type mergeAbort struct{ why string }
 
+// Lifter rewrites float terms for the solver (mode G); TakeAmbig returns the
+// conditions under which the rewritten formulas are not determined.
+type Lifter interface {
+	Lift(*smt.Term) (*smt.Term, error)
+	TakeAmbig() []*smt.Term
+}
+
 type Exec struct {
 	sc        *scope
 	mergeMark []int // cell-id watermarks of active merged calls
 	Merged    map[string]int
+	Lemmas    map[string]bool
+	IfConv    int
+	model     smt.Model
+	modelOK   bool
+	branchRepeat int
+	spec      int
+	specMark  []int
+	Poisoned  int
 	Prog *ssa.Program
 	C    *smt.Ctx
 	S    *smt.Session
@@ -112,8 +130,10 @@ type Exec struct {
 	overApprox bool
 	lastModel smt.Model
 
-	Lifter func(*smt.Term) (*smt.Term, error) // float-mode rewriting of queries (nil = F)
-	LiftMode string
+	NewLifter func(*smt.Ctx) Lifter // float-mode rewriting of queries (nil = F)
+	lifter    Lifter
+	lifterCtx *smt.Ctx
+	LiftMode  string
 
 	// accounting over the whole exploration
 	Paths      int
@@ -147,15 +167,24 @@ func (x *Exec) note(s string) {
 
 func (x *Exec) query(conds ...*smt.Term) smt.Result {
 	all := append(append([]*smt.Term{}, x.pc...), conds...)
-	if x.Lifter != nil {
+	if x.NewLifter != nil {
+		// one lifter per query: its undetermined-tie conditions belong to
+		// exactly the terms of this query
+		x.lifter, x.lifterCtx = x.NewLifter(x.C), x.C
 		for i, t := range all {
-			lt, err := x.Lifter(t)
+			lt, err := x.lifter.Lift(t)
 			if err != nil {
 				x.note("lift: " + err.Error())
 				x.overApprox = true
+				x.Poisoned++
 				lt = x.C.True()
 			}
 			all[i] = lt
+		}
+		// queries are decided outside the undetermined (nudge-absorbed) region
+		for _, a := range x.lifter.TakeAmbig() {
+			x.note("G: nudge-absorption ties excluded from the exact domain")
+			all = append(all, x.C.Not(a))
 		}
 	}
 	r, err := x.S.Check(all...)
@@ -170,12 +199,18 @@ func (x *Exec) assume(c *smt.Term) {
 		return
 	}
 	x.pc = append(x.pc, c)
+	if x.modelOK && x.C.Eval(c, x.model) != 1 {
+		x.modelOK = false
+	}
 }
 
 // Branch resolves a Bool term to a concrete outcome on this path, forking.
 func (x *Exec) Branch(cond *smt.Term) bool {
 	if cond.IsConst() {
 		return cond.U == 1
+	}
+	if x.spec > 0 {
+		panic(specAbort{"symbolic branch inside a speculated block"})
 	}
 	if x.sc.pos < len(x.sc.prefix) {
 		d := x.sc.prefix[x.sc.pos]
@@ -189,6 +224,44 @@ func (x *Exec) Branch(cond *smt.Term) bool {
 		return d == 1
 	}
 	x.sc.pos++
+	if x.sc.lazy && x.branchRepeat <= 1 {
+		// both outcomes are explored unchecked; an infeasible one only adds an
+		// unsatisfiable arm to the merged ite
+		alt := append(append([]int{}, x.sc.trace...), 0)
+		x.sc.forks = append(x.sc.forks, alt)
+		x.sc.trace = append(x.sc.trace, 1)
+		x.assume(cond)
+		x.modelOK = false
+		return true
+	}
+	if x.modelOK {
+		// the model of the current path condition decides one side for free
+		v := x.C.Eval(cond, x.model) == 1
+		other := cond
+		if v {
+			other = x.C.Not(cond)
+		}
+		ro := x.query(other)
+		if ro == smt.Unknown {
+			x.note("branch feasibility unknown: kept")
+		}
+		if ro != smt.Unsat {
+			d := 1
+			if v {
+				d = 0
+			}
+			alt := append(append([]int{}, x.sc.trace...), d)
+			x.sc.forks = append(x.sc.forks, alt)
+		}
+		if v {
+			x.sc.trace = append(x.sc.trace, 1)
+			x.assume(cond)
+		} else {
+			x.sc.trace = append(x.sc.trace, 0)
+			x.assume(x.C.Not(cond))
+		}
+		return v
+	}
 	rt := x.query(cond)
 	if rt == smt.Unknown {
 		x.note("branch feasibility unknown: kept")
@@ -197,6 +270,12 @@ func (x *Exec) Branch(cond *smt.Term) bool {
 		x.sc.trace = append(x.sc.trace, 0)
 		x.assume(x.C.Not(cond))
 		return false
+	}
+	if rt == smt.Sat && x.spec == 0 {
+		x.pc = append(x.pc, cond)
+		x.model = x.fullModelOf(cond)
+		x.pc = x.pc[:len(x.pc)-1]
+		x.modelOK = true
 	}
 	rf := x.query(x.C.Not(cond))
 	if rf == smt.Unknown {
@@ -288,6 +367,8 @@ func (x *Exec) liftedVarProbe(t *smt.Term) *smt.Term {
 	return x.C.True()
 }
 
+func (x *Exec) fullModelOf(extra *smt.Term) smt.Model { return x.fullModel() }
+
 // fullModel fetches a model for every input variable after a Sat answer.
 func (x *Exec) fullModel() smt.Model {
 	var vars []*smt.Term
@@ -357,6 +438,32 @@ func (x *Exec) Assert(cond *smt.Term, label string) {
 		return
 	}
 	m := x.fullModel()
+	if x.NewLifter != nil {
+		// the model must also satisfy the unlifted terms under real IEEE
+		// evaluation; otherwise the lifted encoding is wrong for this input
+		for _, t := range append(append([]*smt.Term{}, x.pc...), neg) {
+			if x.C.Eval(t, m) != 1 {
+				if os.Getenv("GOSMT_DEBUG") != "" {
+					l := x.NewLifter(x.C)
+					for i, tt := range append(append([]*smt.Term{}, x.pc...), neg) {
+						lt, err := l.Lift(tt)
+						lv := uint64(9)
+						if err == nil {
+							lv = x.C.Eval(lt, m)
+						}
+						fmt.Fprintf(os.Stderr, "  term %d real=%d lifted=%d err=%v\n", i, x.C.Eval(tt, m), lv, err)
+					}
+					for _, a := range l.TakeAmbig() {
+						fmt.Fprintf(os.Stderr, "  ambig=%d %v\n", x.C.Eval(a, m), a)
+					}
+					fmt.Fprintf(os.Stderr, "LIFT-MISMATCH label=%s term=%s\n model=%v\n", label, x.explainMismatch(t, m), m)
+				}
+				x.findings = append(x.findings, &Finding{Kind: "unknown", Label: label, Msg: "lifted encoding disagrees with IEEE evaluation of its own model", Harness: x.harness, Path: append([]int{}, x.sc.trace...)})
+				x.assume(cond)
+				return
+			}
+		}
+	}
 	f := &Finding{Kind: "assert", Label: label, Model: m, Tape: x.tape(m), Harness: x.harness, Path: append([]int{}, x.sc.trace...)}
 	if x.overApprox {
 		f.Msg = "over-approximated path"
@@ -394,6 +501,7 @@ func (x *Exec) RunPath(fn *ssa.Function, prefix []int) (res *PathResult, forks [
 	x.pc = x.pc[:0]
 	x.sc = &scope{prefix: prefix}
 	x.mergeMark = nil
+	x.modelOK = false
 	x.inputs = nil
 	x.globals = map[*ssa.Global]*Cell{}
 	x.initDone = map[*ssa.Package]bool{}
@@ -525,4 +633,40 @@ func (x *Exec) runtimeError(msg string) Value {
 
 func (x *Exec) rtPanic(msg string) {
 	panic(&targetPanic{v: x.runtimeError(msg), msg: "runtime error: " + msg})
+}
+
+
+// explainMismatch finds a smallest Bool subterm on which the lifted
+// encoding and IEEE evaluation disagree under m.
+func (x *Exec) explainMismatch(t *smt.Term, m smt.Model) string {
+	l := x.NewLifter(x.C)
+	var walk func(t *smt.Term) *smt.Term
+	seen := map[int]bool{}
+	walk = func(t *smt.Term) *smt.Term {
+		if seen[t.ID] {
+			return nil
+		}
+		seen[t.ID] = true
+		for _, a := range t.Args {
+			if r := walk(a); r != nil {
+				return r
+			}
+		}
+		if t.Sort.K != smt.KBool {
+			return nil
+		}
+		lt, err := l.Lift(t)
+		if err != nil {
+			return nil
+		}
+		if x.C.Eval(lt, m) != x.C.Eval(t, m) {
+			return t
+		}
+		return nil
+	}
+	if r := walk(t); r != nil {
+		lt, _ := l.Lift(r)
+		return fmt.Sprintf("%v  real=%d lifted=%d  liftedterm=%v", r, x.C.Eval(r, m), x.C.Eval(lt, m), lt)
+	}
+	return "no Bool subterm disagrees (ambiguity exclusion?)"
 }
